@@ -1,6 +1,214 @@
-import LinfaSpec.Model.Metrics
+import LinfaSpec.Proofs.Metrics
 
+/-!
+# C05 — every evaluation metric equals its definition recomputed from first principles
+
+Theorems about `LinfaSpec.Metrics` (the model of `metrics_classification.rs`,
+`metrics_regression.rs`, `metrics_clustering.rs`, `correlation.rs`).  Label types are arbitrary
+linear orders, numeric statements are over an arbitrary linearly ordered field (the same
+definitions run on `Float32`/`Float` in the driver).
+-/
 namespace LinfaSpec.Props.C05
-open LinfaSpec.Metrics
+open LinfaSpec LinfaSpec.Metrics
+
+section Confusion
+variable {L : Type} [LinearOrder L]
+
+/-- `confusion_matrix` succeeds exactly on equally long inputs and is the counting loop run over the
+class list -/
+theorem confusion_eq (pred truth : List L) (h : pred.length = truth.length) :
+    confusion pred truth = some (classes pred truth, countLoop (classes pred truth) (pred.zip truth)) := by
+  simp [confusion, h]
+
+theorem confusion_mismatch (pred truth : List L) (h : pred.length ≠ truth.length) :
+    confusion pred truth = none := by
+  simp [confusion, h]
+
+example : confusion [0, 1, 0, 1, 0, 1] [1, 1, 0, 1, 0, 1] = some ([1, 0], [[3, 0], [1, 2]]) := by decide
+
+/-- the members are the union of both label sets, each once, in increasing order (decreasing when
+there are exactly two) -/
+theorem cm_members (pred truth : List L) :
+    (classes pred truth).Nodup ∧ (∀ a, a ∈ classes pred truth ↔ a ∈ pred ∨ a ∈ truth) ∧
+    (if (classes pred truth).length = 2 then (classes pred truth).Pairwise (· > ·)
+     else (classes pred truth).Pairwise (· < ·)) := by
+  refine ⟨nodup_classes pred truth, fun a => mem_classes a pred truth, ?_⟩
+  by_cases h : (sortUniq (pred ++ truth)).length = 2
+  · have hc : classes pred truth = (sortUniq (pred ++ truth)).reverse := by simp [classes, h]
+    rw [hc]; simp only [List.length_reverse, h, if_true]
+    exact List.pairwise_reverse.mpr (sorted_sortUniq _)
+  · have hc : classes pred truth = sortUniq (pred ++ truth) := by simp [classes, h]
+    rw [hc]; simp only [h, if_false]; exact sorted_sortUniq _
+
+example : classes [2, 0, 2] [1, 1, 0] = [0, 1, 2] ∧ classes [true, false] [true, true] = [true, false] := by
+  decide
+
+/-- **cells count pairs**: cell `(i, j)` is the number of samples predicted `cs[i]` whose truth is
+`cs[j]` -/
+theorem cm_cells_count (cs : List L) (hnd : cs.Nodup) (pairs : List (L × L)) (i j : Nat) (a b : L)
+    (hi : cs[i]? = some a) (hj : cs[j]? = some b) :
+    cell (countLoop cs pairs) i j = (pairs.filter fun p => p.1 = a ∧ p.2 = b).length := by
+  have := (cell_foldl_count cs pairs (zeros cs.length) (square_zeros _) i j).2
+  unfold countLoop
+  rw [this, cell_zeros, Nat.zero_add]
+  congr 1
+  apply List.filter_congr
+  intro p _
+  have : (indexOf p.1 cs = some i ∧ indexOf p.2 cs = some j) ↔ (p.1 = a ∧ p.2 = b) := by
+    rw [indexOf_eq_some_iff hnd, indexOf_eq_some_iff hnd, hi, hj]
+    simp [eq_comm]
+  exact decide_eq_decide.mpr this
+
+example : cell (countLoop [2, 1, 0] [(2, 1), (0, 0), (2, 1), (1, 2)]) 0 1 = 2 := by decide
+
+/-- every pair of a `confusion_matrix` call has both labels among the members -/
+theorem pairs_in_classes (pred truth : List L) :
+    ∀ p ∈ pred.zip truth, p.1 ∈ classes pred truth ∧ p.2 ∈ classes pred truth := by
+  intro p hp
+  have := List.of_mem_zip hp
+  simp [mem_classes, this.1, this.2]
+
+/-- **the cells sum to the number of samples** -/
+theorem cm_sum (cs : List L) (hnd : cs.Nodup) (pairs : List (L × L))
+    (hall : ∀ p ∈ pairs, p.1 ∈ cs ∧ p.2 ∈ cs) :
+    total (countLoop cs pairs) = pairs.length := by
+  have := loop_count cs hnd total (fun _ _ => 1) (fun m a b hm ha hb => total_incr hm a b ha hb)
+    (total_zeros _) (fun _ => True) (fun _ _ _ _ _ => by simp) pairs hall
+  simpa using this
+
+theorem cm_sum_confusion (pred truth : List L) (h : pred.length = truth.length) :
+    ∃ m, confusion pred truth = some (classes pred truth, m) ∧ total m = pred.length := by
+  refine ⟨_, confusion_eq pred truth h, ?_⟩
+  rw [cm_sum _ (nodup_classes _ _) _ (pairs_in_classes pred truth)]
+  simp [h]
+
+/-- the diagonal counts the equal pairs, so **accuracy is the fraction of equal labels** -/
+theorem cm_diag_count (cs : List L) (hnd : cs.Nodup) (pairs : List (L × L))
+    (hall : ∀ p ∈ pairs, p.1 ∈ cs ∧ p.2 ∈ cs) :
+    diagSum (countLoop cs pairs) = (pairs.filter fun p => p.1 = p.2).length := by
+  refine loop_count cs hnd diagSum (fun a b => if a = b then 1 else 0)
+    (fun m a b hm ha hb => diagSum_incr hm a b ha hb) (diagSum_zeros _) (fun p => p.1 = p.2) ?_ pairs hall
+  intro p a b ha hb
+  by_cases hp : p.1 = p.2
+  · have : a = b := idx_inj hnd ha (hp ▸ hb)
+    simp [hp, this]
+  · have : a ≠ b := by
+      rintro rfl
+      rw [ha] at hb; exact hp (Option.some.inj hb)
+    simp [hp, this]
+
+theorem accuracy_def {α : Type} [Field α] (cs : List L) (hnd : cs.Nodup) (pairs : List (L × L))
+    (hall : ∀ p ∈ pairs, p.1 ∈ cs ∧ p.2 ∈ cs) :
+    (accuracy (countLoop cs pairs) : α) =
+      ((pairs.filter fun p => p.1 = p.2).length : α) / (pairs.length : α) := by
+  unfold accuracy
+  rw [cm_diag_count cs hnd pairs hall, cm_sum cs hnd pairs hall]
+
+example : (accuracy (countLoop [1, 0] [(0, 1), (1, 1), (0, 0), (1, 1), (0, 0), (1, 1)]) : Rat) = 5 / 6 := by
+  decide +kernel
+
+theorem cm_row_count (cs : List L) (hnd : cs.Nodup) (pairs : List (L × L))
+    (hall : ∀ p ∈ pairs, p.1 ∈ cs ∧ p.2 ∈ cs) (i : Nat) (c : L) (hi : cs[i]? = some c) :
+    rowSum (countLoop cs pairs) i = (pairs.filter fun p => p.1 = c).length := by
+  refine loop_count cs hnd (rowSum · i) (fun a _ => if a = i then 1 else 0)
+    (fun m a b hm ha hb => rowSum_incr hm a b i ha hb) (rowSum_zeros _ _) (fun p => p.1 = c) ?_ pairs hall
+  intro p a b ha _
+  by_cases hp : p.1 = c
+  · have : a = i := idx_inj hnd ha (hp ▸ hi)
+    simp [hp, this]
+  · have : a ≠ i := by
+      rintro rfl
+      rw [ha] at hi; exact hp (Option.some.inj hi)
+    simp [hp, this]
+
+theorem cm_col_count (cs : List L) (hnd : cs.Nodup) (pairs : List (L × L))
+    (hall : ∀ p ∈ pairs, p.1 ∈ cs ∧ p.2 ∈ cs) (j : Nat) (c : L) (hj : cs[j]? = some c) :
+    colSum (countLoop cs pairs) j = (pairs.filter fun p => p.2 = c).length := by
+  refine loop_count cs hnd (colSum · j) (fun _ b => if b = j then 1 else 0)
+    (fun m a b hm ha hb => colSum_incr hm a b j ha hb) (colSum_zeros _ _) (fun p => p.2 = c) ?_ pairs hall
+  intro p a b _ hb
+  by_cases hp : p.2 = c
+  · have : b = j := idx_inj hnd hb (hp ▸ hj)
+    simp [hp, this]
+  · have : b ≠ j := by
+      rintro rfl
+      rw [hb] at hj; exact hp (Option.some.inj hj)
+    simp [hp, this]
+
+/-- **one-vs-all split**: the matrix of class `c` is `[[tp, fp], [fn, tn]]`, each entry the count of
+the corresponding kind of sample (hence the four sum to `n`, by `count_four`) -/
+theorem ova_split_cells (cs : List L) (hnd : cs.Nodup) (pairs : List (L × L))
+    (hall : ∀ p ∈ pairs, p.1 ∈ cs ∧ p.2 ∈ cs) (i : Nat) (c : L) (hi : cs[i]? = some c) :
+    (splitOneVsAll (countLoop cs pairs))[i]? = some
+      [[(pairs.filter fun p => p.1 = c ∧ p.2 = c).length, (pairs.filter fun p => p.1 = c ∧ ¬ p.2 = c).length],
+       [(pairs.filter fun p => ¬ p.1 = c ∧ p.2 = c).length, (pairs.filter fun p => ¬ p.1 = c ∧ ¬ p.2 = c).length]] := by
+  have hlt : i < cs.length := (List.getElem?_eq_some_iff.mp hi).1
+  have hlen : (countLoop cs pairs).length = cs.length := (countLoop_square cs pairs).1
+  unfold splitOneVsAll
+  rw [List.getElem?_map, List.getElem?_range (by rw [hlen]; exact hlt)]
+  simp only [Option.map_some]
+  rw [cm_cells_count cs hnd pairs i i c c hi hi, cm_row_count cs hnd pairs hall i c hi,
+    cm_col_count cs hnd pairs hall i c hi, cm_sum cs hnd pairs hall]
+  obtain ⟨h1, h2, h3⟩ := count_four (fun p : L × L => p.1 = c) (fun p => p.2 = c) pairs
+  generalize (pairs.filter fun p => decide (p.1 = c ∧ p.2 = c)).length = tp at *
+  generalize (pairs.filter fun p => decide (p.1 = c ∧ ¬ p.2 = c)).length = fp at *
+  generalize (pairs.filter fun p => decide (¬ p.1 = c ∧ p.2 = c)).length = fn at *
+  generalize (pairs.filter fun p => decide (¬ p.1 = c ∧ ¬ p.2 = c)).length = tn at *
+  generalize (pairs.filter fun p => decide (p.1 = c)).length = r at *
+  generalize (pairs.filter fun p => decide (p.2 = c)).length = q at *
+  have e1 : r - tp = fp := by omega
+  have e2 : q - tp = fn := by omega
+  have e3 : pairs.length - tp - fp - fn = tn := by omega
+  rw [e1, e2, e3]
+
+example : splitOneVsAll (countLoop [0, 1, 2] [(0, 0), (1, 2), (1, 1), (2, 1), (1, 0)]) =
+    [[[1, 0], [1, 3]], [[1, 2], [1, 1]], [[0, 1], [1, 3]]] := by decide
+
+/-- **one-vs-one split**: one matrix per pair `i < j` of distinct classes, `N(N-1)/2` in all, built
+from the four cells of the two classes -/
+theorem ovo_split_cells (m : List (List Nat)) :
+    splitOneVsOne m = (List.range m.length).flatMap (fun i =>
+      ((List.range m.length).filter fun j => i < j).map fun j =>
+        [[cell m i i, cell m i j], [cell m j i, cell m j j]]) ∧
+    2 * (splitOneVsOne m).length = m.length * (m.length - 1) := by
+  refine ⟨rfl, ?_⟩
+  unfold splitOneVsOne
+  generalize m.length = k
+  simp only [List.length_flatMap, List.length_map]
+  have hc : ∀ i, i < k → ((List.range k).filter fun j => i < j).length = k - 1 - i := by
+    intro i hi
+    induction k with
+    | zero => omega
+    | succ k ih =>
+      rw [List.range_succ, List.filter_append, List.length_append]
+      by_cases hik : i < k
+      · rw [ih hik]; simp [hik]; omega
+      · have : i = k := by omega
+        subst this
+        have : ((List.range i).filter fun j => decide (i < j)) = [] := by
+          apply List.filter_eq_nil_iff.mpr
+          intro a ha; simp at ha; simp; omega
+        simp [this]
+  have : ((List.range k).map fun i => ((List.range k).filter fun j => i < j).length) =
+      (List.range k).map fun i => k - 1 - i := by
+    apply List.map_congr_left
+    intro i hi; exact hc i (List.mem_range.mp hi)
+  rw [this]
+  clear this hc
+  induction k with
+  | zero => simp
+  | succ k ih =>
+    rw [List.range_succ_eq_map, List.map_cons, List.sum_cons, List.map_map]
+    have : ((fun i => k + 1 - 1 - i) ∘ Nat.succ) = fun i => k - 1 - i := by
+      funext i; simp; omega
+    rw [this]
+    cases k with
+    | zero => simp
+    | succ k => simp at ih ⊢; rw [Nat.mul_add, ih]; ring_nf
+
+example : splitOneVsOne [[1, 2, 3], [4, 5, 6], [7, 8, 9]] =
+    [[[1, 2], [4, 5]], [[1, 3], [7, 9]], [[5, 6], [8, 9]]] := by decide
+
+end Confusion
 
 end LinfaSpec.Props.C05
